@@ -35,6 +35,15 @@ VARIANTS = {
         '-fsanitize=address,undefined', '-fno-sanitize=nonnull-attribute',
         '-fno-sanitize-recover=undefined', '-shared-libasan', '-UNDEBUG',
         '-DBTREES_VERIF=1', '-fno-strict-aliasing', '-w']),
+    # the sanitizers on the code AS SHIPPED (C assert() compiled out, as
+    # setup.py builds it): for workloads that look at a container from
+    # inside one of its own operations (finalizers), where an assert() that
+    # states an invariant of the container AT REST may legitimately not hold
+    'asanr': dict(cc='clang', flags=[
+        '-O1', '-g', '-fno-omit-frame-pointer',
+        '-fsanitize=address,undefined', '-fno-sanitize=nonnull-attribute',
+        '-fno-sanitize-recover=undefined', '-shared-libasan', '-DNDEBUG',
+        '-DBTREES_VERIF=1', '-fno-strict-aliasing', '-w']),
     # line/branch coverage of the C templates under the checks' workloads
     # (tools/cov_report.py): never used for a verdict
     'cov': dict(cc='gcc', flags=['-O0', '-g', '--coverage', '-UNDEBUG',
@@ -248,7 +257,7 @@ def worker_env(variant='mon', root=None, logdir=None):
         env['PYTHONMALLOC'] = 'malloc'
     env['PYTHONFAULTHANDLER'] = '1'
     env.pop('PYTHONSTARTUP', None)
-    if variant == 'asan':
+    if variant in ('asan', 'asanr'):
         env['LD_PRELOAD'] = asan_runtime()
         lp = ''
         if logdir:
